@@ -45,10 +45,12 @@ impl YamlConverter {
     fn convert_tuple(&self, items: &[(Rc<str>, Rc<Val>)]) -> std::io::Result<serde_yaml::Value> {
         let mut mapping = serde_yaml::Mapping::new();
         for (k, v) in items.iter() {
-            mapping.insert(
-                serde_yaml::Value::String(k.to_string()),
-                self.convert_value(v)?,
-            );
+            let key = serde_yaml::Value::String(k.to_string());
+            // A selector reads the first field of a name, as do the json
+            // and toml converters.
+            if !mapping.contains_key(&key) {
+                mapping.insert(key, self.convert_value(v)?);
+            }
         }
         Ok(serde_yaml::Value::Mapping(mapping))
     }
